@@ -8,13 +8,13 @@ VERIF = os.path.dirname(os.path.dirname(os.path.abspath(__file__)))
 T = {
     "C01": ("offline trace automaton over the recorded history of real Tuner.run executions (simulator + scripted-process backends) with injected failures, external stops and ground-truth job-end events (bounded-progress rule)",
             "Held on the explored runs: worker occupancy, id sequence, per-trial life-cycle automaton and notification conservation are decided by an offline checker over the event log recorded at the public scheduler/backend/callback boundaries, across the scheduler matrix, delay settings and injected failures.", "§4 C01"),
-    "C02": ("exactly-once / prefix / no-delivery-after-decision checker over uniquely identified emissions vs deliveries",
+    "C02": ("exactly-once / prefix / no-delivery-after-decision checker over uniquely identified emissions vs deliveries (scripted-process LocalBackend, simulator, and a direct driver of the generic poll logic over a backend whose jobs stop asynchronously)",
             "Held on the explored poll plans and simulator runs: every emission carries a unique id, so the delivered sequence of every run is checked to be a gap-free ordered prefix with nothing emitted after a stop/pause decision.", "§4 C02"),
     "C03": ("lock-step reference-model monitor (numpy.quantile stopping rule) on harness-driven report schedules incl. sparse reporters, and on decisions recorded inside real Tuner runs (engine R); icontract invariants on Rung",
             "Held on the explored schedules: each decision of the real scheduler is compared with an independent reference stopping-rung model fed the same events, with an explicit round-off band.", "§4 C03"),
-    "C04": ("lock-step reference-model monitor (promotion rule, PASHA cap, cost threshold) on harness-driven suggest/report interleavings",
+    "C04": ("lock-step reference-model monitor (promotion rule, PASHA cap, cost threshold) on harness-driven suggest/report interleavings, some with a second experiment stepped in the same process",
             "Held on the explored schedules: every suggestion (resume vs start, resource target) and decision is compared with an independent reference promotion model.", "§4 C04"),
-    "C05": ("exhaustive small-scope walk of the real bracket manager with a lock-step reference model, plus randomised scheduler-level schedules with failures",
+    "C05": ("exhaustive small-scope walk of the real bracket manager with a lock-step reference model, plus randomised scheduler-level schedules with failures, infinite metric values, finite spaces and caller-side reuse of the rung lists",
             "Engine A enumerates all operation sequences of the real SynchronousHyperbandBracketManager within the stated bounds against a reference; engine B drives the scheduler API under random interleavings and failure subsets.", "§4 C05"),
     "C06": ("membership/type/initial-points/no-repeat/exhaustion oracle over suggestions from generated histories",
             "Held on the explored spaces and histories: every suggestion is checked for keys, constants, types, membership, initial-point order, repeats and exhaustion.", "§4 C06"),
@@ -22,7 +22,7 @@ T = {
             "Held on the explored domains: samples, casts, decodings and encode/decode/JSON round trips of generated domains are checked against the domain's own definition.", "§4 C07"),
     "C08": ("reference-model monitor: dense numpy (and mpmath-calibrated) GP vs the real posterior state on generated data",
             "Held on the explored data sets and parameters: predictions, likelihood, joint-sample covariance, jitter and incremental updates are compared with dense textbook formulas under a conditioning-scaled tolerance.", "§4 C08"),
-    "C09": ("Richardson-extrapolated finite differences and closed forms vs the real gradients",
+    "C09": ("Richardson-extrapolated finite differences and closed forms vs the real gradients (incl. near-singular states that take the jitter loop, predictors kept across a re-fit); contract monitor on every AddJitterOp call",
             "Held on the explored points: gradients of the fitting criterion and of the acquisition functions are compared with extrapolated central differences (with their own error estimate); EI with its closed form.", "§4 C09"),
     "C10": ("table/time oracle recomputing every delivered result of real simulated Tuner runs; scripted wall clock under the time keeper (outside time charged exactly once); every clock advance recorded",
             "Held on the explored simulated runs: metric values, level sequences, per-trial seed and simulated time stamps are recomputed from the table and the observed start/resume events.", "§4 C10"),
@@ -38,13 +38,13 @@ T = {
             "Held on the explored pairs: suggestions, decisions and best-configuration reporting coincide between mode min on f and mode max on -f.", "§4 C15"),
     "C16": ("continuation-equality monitor at every prefix of generated histories (dill and get_state/clone_from_state)",
             "Held on the explored histories and snapshot points: the restored object continues identically to the uninterrupted one.", "§4 C16"),
-    "C17": ("row-vs-delivery and statistics oracle over real runs and direct TuningStatus histories, CSV read back",
+    "C17": ("row-vs-delivery and statistics oracle over real runs (incl. experiments continued at another path) and direct TuningStatus histories, CSV read back",
             "Held on the explored runs: result rows equal deliveries one-to-one, CSV read-back equals the table, best configuration and running statistics equal recomputed values.", "§4 C17"),
     "C18": ("round-trip oracle: real Reporter writing to a real file with interleaved hostile output, parsed by the real retrieve",
             "Held on the explored scripts: retrieved reports equal the reported dictionaries in order; counters and time stamps monotone; rejected reports raise and leave the stream intact.", "§4 C18"),
     "C19": ("brute-force Pareto oracle and MOASHA reference rule on generated point sets and schedules",
             "Held on the explored point sets and schedules: pareto_efficient and nondominated_sort vs brute force; MOASHA decisions vs the documented rank rule computed from the recorded priorities.", "§4 C19"),
-    "C20": ("checkpoint life-cycle monitor over real Tuner runs on a scripted-process backend with real checkpoint directories (NaN-reporting trials, PBT pending-clone probe)",
+    "C20": ("checkpoint life-cycle monitor over real Tuner runs on a scripted-process backend with real checkpoint directories (NaN-reporting trials, stragglers, jobs stopped from outside, PBT pending-clone probe)",
             "Held on the explored runs: at every resume/copy the checkpoint exists; deletions happen only in states the property allows.", "§4 C20"),
 }
 
